@@ -116,9 +116,10 @@ def history_appends(sample, repo=None, cls=None):
                 if isinstance(r, ast.Attribute) and isinstance(r.value, ast.Attribute) and r.value.attr == "history":
                     out.append((r.attr, n))
         return out
-    key = (id(repo), sample.ident, getattr(cls, "ident", None))
-    if key in _HA_CACHE:
-        return _HA_CACHE[key]
+    cache = repo.__dict__.setdefault("_ha_cache", {})
+    key = (sample.ident, getattr(cls, "ident", None))
+    if key in cache:
+        return cache[key]
     no_inline = {f.ident for f in repo.all_functions(include_nested=False) if f is not sample}
     ev = Evaluator(repo, max_depth=0, assume=lambda c: None)
     ev.run(sample, cls or sample.cls)
@@ -141,5 +142,5 @@ def history_appends(sample, repo=None, cls=None):
             if r[0] == "attr" and (r[1] in hist_vals or (r[1][0] == "phi" and set(T.phi_leaves(r[1])) & hist_vals)):
                 if isinstance(e.node, ast.Call):
                     out.append((r[2], e.node))
-    _HA_CACHE[key] = out
+    cache[key] = out
     return out
